@@ -236,6 +236,10 @@ def b_sum(ex, it, start=0):
 def b_sorted(ex, it, **kw):
     it = ex.concretize(it)
     if hasattr(it, 'sym_sorted'):
+        if kw.get('reverse'):
+            raise Unsupported('sorted(..., reverse=True) of a symbolic map')
+        if kw.get('key') is not None:
+            return it.sym_sorted(ex, key=kw['key'])
         return it.sym_sorted(ex)
     xs = ex.iterate(it)
     if any(isinstance(x, Sym) for x in xs):
@@ -322,6 +326,7 @@ def b_globals(ex):
 class ModuleGlobals:
     """globals() of a repository module: only .get(name) is modelled (static name resolution,
     assumption: no monkey-patching of module globals)."""
+    ALWAYS_TRUE = True        # a Python object of this kind is truthy (no __bool__ / __len__)
     def __init__(self, module=None):
         self.module = module
 
@@ -334,7 +339,34 @@ def b_print(ex, *a, **kw):
     return None
 
 
+def b_format(ex, v, spec=''):
+    v = ex.concretize(v)
+    spec = ex.concretize(spec)
+    if isinstance(v, Sym) and isinstance(spec, str):
+        return SStr([Fmt(v, spec)])
+    if isinstance(v, (Sym, SStr)) or isinstance(spec, (Sym, SStr)):
+        raise Unsupported('format() of a symbolic value')
+    try:
+        return format(v, spec)
+    except (ValueError, TypeError) as e:
+        raise PyRaise(make_exc(type(e).__name__, str(e)))
+
+
+def b_vars(ex, obj):
+    obj = ex.concretize(obj)
+    if isinstance(obj, Obj):
+        return obj.attrs
+    raise Unsupported('vars() of a non-object')
+
+
 def b_int_from_bytes(ex, b, byteorder='big', **kw):
+    if isinstance(b, tuple) and len(b) == 3 and b[0] == 'packed':
+        # struct.pack result (dependency contract of contracts/helpers_c.py): the IEEE-754 single pattern of the value
+        from contracts.helpers_c import BITS_OF_SINGLE
+        from .values import real_term
+        if b[1] == '<f' and byteorder == 'little' and not kw.get('signed'):
+            return mk_int(BITS_OF_SINGLE(real_term(b[2])))
+        raise Unsupported(f'int.from_bytes of struct.pack({b[1]!r}) with byteorder {byteorder!r}')
     b = ex.concretize(b)
     if kw.get('signed'):
         raise Unsupported('int.from_bytes signed')
@@ -401,7 +433,7 @@ def b_getattr(ex, obj, name, *default):
 
 
 BUILTINS = {}
-for _n, _f in [('all', b_all), ('any', b_any), ('reversed', b_reversed), ('getattr', b_getattr), ('divmod', b_divmod),
+for _n, _f in [('format', b_format), ('vars', b_vars), ('all', b_all), ('any', b_any), ('reversed', b_reversed), ('getattr', b_getattr), ('divmod', b_divmod),
                ('len', b_len), ('isinstance', b_isinstance), ('int', b_int), ('float', b_float), ('round', b_round),
                ('bool', b_bool), ('str', b_str), ('bytes', b_bytes), ('bytearray', b_bytearray), ('range', b_range),
                ('min', b_min), ('max', b_max), ('sum', b_sum), ('sorted', b_sorted), ('list', b_list),
@@ -421,6 +453,7 @@ BUILTINS['False'] = False
 # external modules
 # ----------------------------------------------------------------------------
 class ExtModule:
+    ALWAYS_TRUE = True        # a Python object of this kind is truthy (no __bool__ / __len__)
     def __init__(self, name):
         self.name = name
 
